@@ -171,6 +171,16 @@ def run_history(spec, ops):
             elif op[0] == "set_focus":
                 if len(lst):
                     lb.set_focus(op[1] % len(lst), op[2])
+            elif op[0] == "set_focus_raw":
+                # any integer, as an application may pass it: a position that does not exist is refused (IndexError) and nothing changes;
+                # whatever is accepted must leave a view the next rendering can show
+                try:
+                    if op[2]:
+                        lb.focus_position = op[1]
+                    else:
+                        lb.set_focus(op[1])
+                except IndexError:
+                    pass
             elif op[0] == "valign":
                 lb.set_focus_valign(op[1] if not isinstance(op[1], list) else tuple(op[1]))
             elif op[0] == "h":
@@ -247,6 +257,8 @@ def random_ops(rng, n):
             ops.append(("wheel", rng.choice([4, 5])))
         elif r < 0.65:
             ops.append(("set_focus", rng.randint(0, 6), rng.choice([None, "above", "below"])))
+            if rng.random() < 0.3:
+                ops.append(("set_focus_raw", rng.randint(-4, 8), rng.randint(0, 1)))
         elif r < 0.7:
             ops.append(("valign", rng.choice(["top", "middle", "bottom", ["relative", 30]])))
         elif r < 0.78:
@@ -323,6 +335,13 @@ def run(chk):
                         base = {"items": [[1, 1, -1]] * n0, "w": 3, "h": 3, "walker": walker}
                         empty = ("clear",) if how == "clear" else ("setall", [])
                         traces.append(run_history(base, [("set_focus", f, None), empty, ("iadd", [[1, 1, -1]] * k), ("key", "down"), ("press", 0, 0)]))
+    # ---- directed: every integer near the valid range as a focus position, on every walker, then a key ----
+    for walker in ("focus", "simple", "plain"):
+        for n0 in (0, 1, 3):
+            for pos in range(-n0 - 2, n0 + 2):
+                for attr in (0, 1):
+                    base = {"items": [[1, 1, -1]] * n0, "w": 3, "h": 2, "walker": walker}
+                    traces.append(run_history(base, [("set_focus_raw", pos, attr), ("key", "up"), ("key", "down")]))
     # ---- directed: a selectable item with a cursor that is taller than the box, every inset, every cursor row, then every key / wheel ----
     for H in (2, 3, 5, 7):
         for crow in sorted({0, H // 2, H - 1}):
